@@ -5,7 +5,7 @@ from tools.vlib import hx
 from checks import c03
 
 MODULE = "PropC11"
-THEOREMS = []
+THEOREMS = ["C11_code_conforms", "C11_resume_keeps_records", "C11_resume_same_lineage", "C11_store_is_lineage", "C11_roundtrip_tokens", "C11_roundtrip_strings", "C11_roundtrip_bytes_example"]
 
 
 def workflow(rng, i):
@@ -89,6 +89,11 @@ def case(args):
             before = audit_files(r1["fs"])
             if r1["rc"] != 0:
                 problems.append(("partial-run-fails", r1["stderr"][-200:]))
+        elif mode == "strace":
+            # kill inside a write(2) to the audit file of a finalized output (the tagging component rewrites it in place)
+            r1 = t3.run_impl(sc, sp, strace_kill=point, timeout=60)
+            c03.cleanup(sc.work)
+            before = {}
         elif mode == "crash":
             r1 = t3.run_impl(sc, sp, crash="%s:%d" % point, timeout=60)
             c03.cleanup(sc.work)
@@ -121,7 +126,7 @@ def case(args):
             before = audit_files(t3.snapshot_dir(sc.work))
         r2 = t3.run_impl(sc, sp, timeout=60)
         if r2["rc"] != 0 or not r2["returned"]:
-            problems.append(("resume-fails", "the resumed run exits %s: %s" % (r2["rc"], r2["stderr"][-300:])))
+            problems.append(("resume-fails", "the resumed run exits %s: %s" % (r2["rc"], (r2["stderr"] + r2["log_tail"])[-400:])))
         else:
             problems += lineage_problems(model, r2["fs"], before, tag="[%s] " % mode, ran=set(t3.started_keys(r2["trace"])))
         return {"spec": sp.text(), "bufsize": sp.bufsize, "problems": problems[:4], "ntasks": len(model["tasks"]), "rc": r2["rc"], "stderr": r2["stderr"][-200:], "yield": None,
@@ -131,17 +136,33 @@ def case(args):
 
 
 def json_roundtrip(rng, n):
-    """writing an audit record and reading it back loses nothing: Go's encoder/decoder on generated trees (through t2 json)"""
+    """writing an audit record and reading it back loses nothing: Go's encoder / decoder and the Coq model on generated trees"""
     lines = []
+    alphabet = ['a', 'B', '9', ' ', '"', '\\', '<', '>', '&', '/', '\n', '\t', '\r', '\x08', '\x0c', '{', '}', ':', ',', "'", '%', '\x01', '\x1f', '\x7f', '[', ']', 'u']
+    def s():
+        return "".join(rng.choice(alphabet) for _ in range(rng.randint(0, 8)))
+    def when():
+        if rng.random() < 0.3:
+            return "0001-01-01T00:00:00Z"
+        frac = rng.choice(["", ".5", ".000000123", ".123456789", ".25"])
+        return "2026-0%d-1%dT0%d:%02d:%02d%sZ" % (rng.randint(1, 9), rng.randint(0, 9), rng.randint(0, 9), rng.randint(0, 59), rng.randint(0, 59), frac)
+    def kv():
+        d = {}
+        for _ in range(rng.randint(0, 3)):
+            d[s()] = s()
+        return sorted(d.items())
     def rec(depth):
-        s = lambda: "".join(rng.choice(['a', 'B', '9', ' ', '"', '\\', '<', '>', '&', '/', '\n', '\t', '{', '}', ':', ',', "'", '%', '\x01', '\x7f']) for _ in range(rng.randint(0, 8)))
-        kv = lambda: [(s(), s()) for _ in range(rng.randint(0, 3))]
-        ups = [(s(), rec(depth - 1)) for _ in range(rng.randint(0, 2))] if depth > 0 else []
-        return (s(), s(), kv(), kv(), kv(), ups)
+        ups = {}
+        if depth > 0:
+            for _ in range(rng.randint(0, 2)):
+                ups[s()] = rec(depth - 1)
+        neg = rng.random() < 0.2
+        return (s(), s(), s(), kv(), kv(), when(), when(), neg, 1 if neg else rng.randint(0, 5000), kv(), sorted(ups.items()))
     def ser(r):
-        proc, cmd, params, tags, outs, ups = r
+        i, proc, cmd, params, tags, st, fi, neg, ex, outs, ups = r
         f = lambda l: "%d%s" % (len(l), "".join(" %s %s" % (hx(a), hx(b)) for a, b in l))
-        return "%s %s %s %s %s %d%s" % (hx(proc), hx(cmd), f(params), f(tags), f(outs), len(ups), "".join(" %s %s" % (hx(p), ser(u)) for p, u in ups))
+        return "%s %s %s %s %s %s %s %d %d %s %d%s" % (hx(i), hx(proc), hx(cmd), f(params), f(tags), hx(st), hx(fi), 1 if neg else 0, ex, f(outs), len(ups),
+                                                      "".join(" %s %s" % (hx(p), ser(u)) for p, u in ups))
     for _ in range(n):
         lines.append(ser(rec(rng.randint(0, 3))))
     return lines
@@ -160,12 +181,30 @@ def run(rep, tier, seed):
         pts, ref = t3.hook_points(sp, prefixes=("exec.", "fin.", "run."), rng=rng)
         for pt in (pts if tier != "quick" else rng.sample(pts, min(len(pts), 30))):
             cases.append((seed, i, "crash", pt))
+        if i % 2 == 0:
+            base = t3.run_model(sp.text())
+            for t in base["tasks"]:
+                if t["proc"] == "w":
+                    for n in (1, 2):
+                        cases.append((seed, i, "strace", (t["outs"][0][2] + ".audit.json", n)))
         for k in range(6):
             cases.append((seed, i + 1000 * k, "runto", None))
             cases.append((seed, i + 1000 * k, "delete", None))
     results = [r for r in t3.run_many(case, cases) if r]
-    t3.report_t3(rep, MODULE, proved, results, "T3 resumed histories: audit lineage vs the uninterrupted run")
-    rep.cov["evaluations"] = len(results)
+    found = t3.report_t3(rep, MODULE, proved, results, "T3 resumed histories: audit lineage vs the uninterrupted run")
+    jl = json_roundtrip(rng, 300 if tier == "quick" else 5000)
+    diffs, impl, model = vlib.t2_compare("json", jl)
+    rep.notes["json_roundtrip_lines"] = len(jl)
+    for a in impl:
+        if not a.endswith(" RT") and not found:
+            rep.violation("Go's own audit-record round trip (MarshalIndent, Unmarshal, MarshalIndent) is not the identity: %s" % a[-40:], {"kind": "json-roundtrip", "impl": a})
+            found = True
+            break
+    if diffs and not found:
+        i, a, b = diffs[0]
+        rep.violation("the JSON model and encoding/json disagree on an audit record (bytes or round trip)", {"kind": "json-model", "input_line": jl[i] if i >= 0 else None,
+                      "impl": vlib.unhx(a.split()[0]) if i >= 0 and a.split() else a, "model": vlib.unhx(b.split()[0]) if i >= 0 and b.split() else b}, nofail=True)
+    rep.cov["evaluations"] = len(results) + rep.notes.get("json_roundtrip_lines", 0)
     rep.cov["distinct_nontrivial"] = len({(r["spec"], r["mode"], r["point"]) for r in results})
     rep.cov["rule"] = "three-stage workflows with a parameter stream and (every other one) a tagging component, executed as a history: partial RunTo then full Run; kill at a hook point of Task.Execute / FinalizePaths / Process.Run, clean up, run again; complete run, delete a downward-closed set of outputs with their audit files, run again. After each history every output's audit record (without IDs and times) must equal, recursively, the lineage of an uninterrupted run as computed by the Coq reference evaluator, and every audit file that was on disk before the resume must be unchanged (or differ only in ID / times if its task was re-executed)"
     rep.cov["samples"] = [results[0]["spec"]]
